@@ -1028,6 +1028,9 @@ class Interp:
             return a - b
         if isinstance(a, Opaque) or isinstance(b, Opaque):
             return Opaque(f"({a!r} {type(op).__name__} {b!r})")
+        concrete = (type(None), bool, int, float, str, bytes, list, tuple, dict, set, Sym)
+        if isinstance(a, concrete) and isinstance(b, concrete):
+            raise PyExc("TypeError", f"unsupported operand type(s) for {type(op).__name__}: {a!r} and {b!r}")
         raise AnalysisError(f"peval: binop {type(op).__name__} on {a!r}, {b!r} at `{norm(node)[:70] if node is not None else ''}`")
 
     def compare(self, op, a, b, node=None):
